@@ -178,8 +178,8 @@ def checkDynamic (l n m : Nat) : Bool :=
 
 /-! ## World -/
 
-def Bank := Addr → Denom → Nat
-def Supply := Denom → Nat
+abbrev Bank := Addr → Denom → Nat
+abbrev Supply := Denom → Nat
 
 structure ContractInfo where
   addr : Addr
